@@ -122,7 +122,7 @@ Section S.
   Proof. apply mc_step_keeps. Qed.
 
   Theorem C18_factor_from_ratio (b : builder NN) r :
-    b_kt_ratio b = Some r -> factor (build b) = nsub n1 r.
+    b_kt_ratio b = Some r -> factor (build b) = nmax n0 (nsub n1 r).
   Proof. intros H. unfold Optimiser.build. cbn [factor]. now rewrite H. Qed.
 
   Theorem C18_factor_default (b : builder NN) :
@@ -144,7 +144,7 @@ Section S.
      from kt_finish: it is the default tenth, or 1 - ratio *)
   Theorem C18_factor_at_zero_start (b : builder NN) :
     nltb n0 (b_kt_start b) = false ->
-    factor (build b) = match b_kt_ratio b with Some r => nsub n1 r | None => tenth NN end.
+    factor (build b) = match b_kt_ratio b with Some r => nmax n0 (nsub n1 r) | None => tenth NN end.
   Proof.
     intros H. unfold Optimiser.build. cbn [factor]. rewrite H.
     destruct (b_kt_ratio b), (b_kt_finish b); reflexivity.
